@@ -287,6 +287,10 @@ def _minmax(is_min):
         default = kwargs.get('default', NOARG)
         if 'key' in kwargs:
             raise Unsupported('min/max with key', node)
+        if len(args) == 1 and as_pipe(args[0]) is not None:
+            from .pipes import agg
+            return agg(interp, 'min' if is_min else 'max', as_pipe(args[0]), node,
+                       default=(default,) if default is not NOARG else None)
         if len(args) == 1:
             if isinstance(args[0], SSeq):
                 return args[0].minmax(interp, is_min, default, node)
@@ -322,7 +326,30 @@ class _NoArg:
 NOARG = _NoArg()
 
 
+def as_pipe(v):
+    """SPipe behind a value (directly or through a generator expression), else None"""
+    from .interp import LazyGen
+    from .pipes import SPipe
+    if isinstance(v, SPipe):
+        return v
+    if isinstance(v, LazyGen):
+        if v._items is None and not hasattr(v, '_pipe'):
+            it = v.iterator()
+            if isinstance(it, SPipe):
+                v._pipe = it
+            else:
+                from .seqs import SSeq
+                v._items = it if isinstance(it, SSeq) else list(it)
+                v._pipe = None
+        return getattr(v, '_pipe', None)
+    return None
+
+
 def b_sum(interp, args, kwargs, node):
+    from .pipes import agg
+    p_ = as_pipe(args[0])
+    if p_ is not None:
+        return agg(interp, 'sum', p_, node)
     from .seqs import SSeq
     if isinstance(args[0], SSeq):
         return args[0].sum(interp, args[1] if len(args) > 1 else 0, node)
@@ -383,7 +410,11 @@ def b_all(interp, args, kwargs, node):
 def b_next(interp, args, kwargs, node):
     from .interp import LazyGen
     from .seqs import SSeq
+    from .pipes import agg
     v = args[0]
+    p_ = as_pipe(v)
+    if p_ is not None:
+        return agg(interp, 'first', p_, node, default=(args[1],) if len(args) > 1 else None)
     if isinstance(v, LazyGen):
         it = v.iterator()
         if isinstance(it, SSeq):
@@ -421,6 +452,9 @@ def b_tuple(interp, args, kwargs, node):
     if not args:
         return ()
     v = args[0]
+    p_ = as_pipe(v)
+    if p_ is not None:
+        return p_
     if isinstance(v, LazyGen):
         it = v.iterator()
         if isinstance(it, SSeq):
@@ -548,6 +582,11 @@ def b_isinstance(interp, args, kwargs, node):
 def isinstance_one(interp, v, t, node):
     from .interp import ClassModel, SObj, Builtin, LazyGen, SymSet, Closure
     from .seqs import SSeq
+    from .pipes import SPipe, SNested
+    if isinstance(v, (SPipe, SNested)):
+        if isinstance(t, Builtin):
+            return t.name in ('tuple', 'Iterable') if isinstance(v, SPipe) else t.name in ('tuple', 'Iterable')
+        return False
     if isinstance(v, sym.SOpaque):
         from . import heap
         return heap.isinstance_opaque(interp, v, t, node)
@@ -735,7 +774,15 @@ def b_type(interp, args, kwargs, node):
     v = args[0]
     if isinstance(v, SObj):
         return v.cls
-    raise Unsupported('type() of non-object', node)
+    names = {'bool': (SBool, bool), 'int': (SInt, int), 'float': (SFloat, float), 'str': (SStr, str)}
+    for nm in ('bool', 'int', 'float', 'str'):
+        if isinstance(v, names[nm]):
+            return interp.world.builtins[nm]
+    if v is None:
+        return type(None)
+    if isinstance(v, tuple):
+        return interp.world.builtins['tuple']
+    raise Unsupported('type() of this value', node)
 
 
 def b_id(interp, args, kwargs, node):
